@@ -17,11 +17,14 @@ EK = {"inv": 0, "fs": 1, "fe": 2, "ret": 3, "del": 5, "fault": 6, "ctxdone": 7}
 CANCELED, DEADLINE, WCANCELED, WDEADLINE = 30, 31, 32, 33   # context.Canceled / DeadlineExceeded as outcomes, bare and %w-wrapped
 # the caller's own context (5th component of a cache node Take op)
 CTX_NONE, CTX_LIVE, CTX_CANCEL_IN_LOAD, CTX_DEADLINE_IN_LOAD, CTX_DONE = 0, 1, 2, 3, 4
+CTX_CANCEL_IN_STORE, CTX_DEADLINE_IN_STORE = 5, 6    # done DURING the store GET of the flight (gate inside a go-redis hook)
 PANIC = -2      # err code: the user function panics (Model.epanic)
+GOEXIT = -3     # err code: the user function ends its goroutine with runtime.Goexit (last op of a script only); for the
+                # model the same as a panic: the deferred epilogue runs, the call does not return, the thread is over
 NOTFOUND = 9    # err code: the cache node's not-found error (Check.enotfound)
 WNOTFOUND = 19  # the same, wrapped with %w by the loader: the node must treat it as not found (rendered as 9 for Coq)
 NIL = -1        # val: the user function returns a nil value (Model.vnil)
-COQ_ERR = {WNOTFOUND: NOTFOUND, WCANCELED: CANCELED, WDEADLINE: DEADLINE}   # what the wrapped sentinels must be taken for
+COQ_ERR = {WNOTFOUND: NOTFOUND, WCANCELED: CANCELED, WDEADLINE: DEADLINE, GOEXIT: PANIC}   # what the wrapped sentinels must be taken for
 INST = 1000     # key // INST = instance of the primitive / cache (two instances per case)
 
 
@@ -143,6 +146,14 @@ class C07(Property):
         for kind in (5, 8):
             cs.append({"scripts": self._mk_scripts([[(kind, 1, 0), (kind, 2, 0)], [(kind, 1, 0, None, CTX_LIVE)], [(5, 1, 0)]]),
                        "sched": [0, 1, 2, 0, 0, 0, 2, 1]})
+        # the leader's context becomes done DURING the store call of its flight (held inside the redis GET), followers joined
+        for cm in (CTX_CANCEL_IN_STORE, CTX_DEADLINE_IN_STORE):
+            cs.append({"scripts": self._mk_scripts([[(5, 1, 0, None, cm)], [(5, 1, 0, None, CTX_LIVE)], [(8, 1, 0)], [(5, 1, 0)]]),
+                       "sched": [0, 1, 2, 0, 3, 1, 2, 3]})
+        # the leader's goroutine exits inside the function (runtime.Goexit): epilogue as for a panic, waiters released
+        for kind in (0, 1, 2, 4, 5):
+            cs.append({"scripts": self._mk_scripts([[(kind, 1, 0), (kind, 1, GOEXIT)], [(kind, 1, 0)], [(kind, 1, 0)]]),
+                       "sched": [0, 0, 0, 0, 1, 2, 0, 1, 2] if kind != 2 else [0, 0, 0, 0, 0, 0, 1, 1, 2, 0, 1, 2, 2, 2]})
         # ... and a caller whose context is already done: fails before any loader runs
         cs.append({"scripts": self._mk_scripts([[(5, 1, 0, None, CTX_DONE), (5, 1, 0, None, CTX_LIVE)], [(8, 1, 0, None, CTX_DONE)]]),
                    "sched": [0, 1, 0, 0]})
@@ -222,7 +233,8 @@ class C07(Property):
         rng.shuffle(c3)
         for sch in c3[:25 if quick else 90]:
             def node_op():
-                cm = rng.choice([CTX_NONE, CTX_LIVE, CTX_LIVE, CTX_CANCEL_IN_LOAD, CTX_DEADLINE_IN_LOAD])
+                cm = rng.choice([CTX_NONE, CTX_LIVE, CTX_LIVE, CTX_CANCEL_IN_LOAD, CTX_DEADLINE_IN_LOAD, CTX_CANCEL_IN_STORE,
+                                 CTX_DEADLINE_IN_STORE])
                 if cm == CTX_CANCEL_IN_LOAD:
                     e = rng.choice([CANCELED, WCANCELED])
                 elif cm == CTX_DEADLINE_IN_LOAD:
@@ -275,7 +287,8 @@ class C07(Property):
                 if rng.random() < 0.2:
                     ops.append((rng.choice([7, 7, 10]) if node else 6, key, 0))
                 elif node:
-                    cm = rng.choice([CTX_NONE, CTX_NONE, CTX_LIVE, CTX_LIVE, CTX_CANCEL_IN_LOAD, CTX_DEADLINE_IN_LOAD, CTX_DONE])
+                    cm = rng.choice([CTX_NONE, CTX_NONE, CTX_LIVE, CTX_LIVE, CTX_CANCEL_IN_LOAD, CTX_DEADLINE_IN_LOAD, CTX_DONE,
+                                     CTX_CANCEL_IN_STORE, CTX_DEADLINE_IN_STORE])
                     if cm == CTX_CANCEL_IN_LOAD:
                         e = rng.choice([CANCELED, WCANCELED])
                     elif cm == CTX_DEADLINE_IN_LOAD:
@@ -318,6 +331,8 @@ class C07(Property):
                         and not any(len(x) > 3 and x[3] == NIL for x in ops):
                     op = op + (NIL,)                       # a function that returns (nil, nil)
                 ops.append(op)
+            if rng.random() < 0.12:
+                ops[-1] = (ops[-1][0], ops[-1][1], GOEXIT)       # the thread's last function ends its goroutine
             sc.append(ops)
         total = sum(len(x) for x in sc)
         sched = [rng.randrange(nthreads) for _ in range(rng.randint(total, 3 * total))]
@@ -450,6 +465,8 @@ class C07(Property):
             fs.append("two_instances")
         if any(o[3] == PANIC and o[0] not in (6, 7, 9, 10) for sc in case["scripts"] for o in sc):
             fs.append("has_panicking_fn")
+        if any(o[3] == GOEXIT for sc in case["scripts"] for o in sc):
+            fs.append("has_goexit_fn")
         if any(e[2] == 3 and e[5] == NOTFOUND for e in obs.get("log", [])):
             fs.append("has_notfound")
         if any(e[2] == 6 for e in obs.get("log", [])):
@@ -457,7 +474,8 @@ class C07(Property):
         if any(st[0] == 3 and x.get("post") for s_ in obs.get("steps", []) for st, x in zip(s_["st"], s_.get("lab", []))):
             fs.append("joiner_held_after_doex")
         for m in sorted(set(o[4] for sc in case["scripts"] for o in sc if len(o) > 4 and o[4])):
-            fs.append("ctx=%s" % {1: "live", 2: "cancelled-in-load", 3: "deadline-in-load", 4: "already-done"}[m])
+            fs.append("ctx=%s" % {1: "live", 2: "cancelled-in-load", 3: "deadline-in-load", 4: "already-done",
+                                  5: "cancelled-in-store-call", 6: "deadline-in-store-call"}[m])
         if any(o[3] in (CANCELED, DEADLINE, WCANCELED, WDEADLINE) for sc in case["scripts"] for o in sc):
             fs.append("has_context_error_outcome")
         fs.append("steps<=%d" % (10 * (1 + len(obs.get("steps", [])) // 10)))
@@ -529,6 +547,14 @@ class C07(Property):
             c["spin"] = rng.choice([0, 1, 5, 20])
             c["id"] = i
             cases.append(c)
+        # generation churn: many short calls of many threads on ONE key (entries of the key are created and deleted all
+        # the time while waiters of older generations are still on their way out)
+        for j in range(250):
+            kind = rng.choice([0, 0, 3, 1, 2, 4, 5])
+            nt = rng.choice([4, 6, 8])
+            sc = [[(kind, 1, rng.choice([0, 0, 0, 2, PANIC])) for _ in range(rng.choice([3, 4, 6]))] for _ in range(nt)]
+            cases.append({"scripts": self._mk_scripts(sc), "sched": [], "free": True, "spin": rng.choice([0, 0, 1, 3]),
+                          "id": 1000 + j})
         rc, out, rs = vlib.go_run(res, cases, tag="c07race", timeout=900)
         fails = []
         if "DATA RACE" in out:
